@@ -174,14 +174,16 @@ def run_case(case):
             prog.append((rng.choice([32700, 32701, 40000, 65535]), [("rem", " BIG", "REM")]))
             want = "LineNumberTooLargeException"
         elif what == "two-on-err":
+            same = rng.random() < 0.5          # both handlers may well name the same line: still two ON ERR
             prog[0][1].append(("onerr", nums[0]))
-            prog[-1][1].insert(1, ("onerr", nums[-1]))
+            prog[-1][1].insert(1, ("onerr", nums[0] if same else nums[-1]))
             if err_t is not None:
                 pass
             want = "ParseError"
         else:
+            same = rng.random() < 0.5
             prog[0][1].append(("onbrk", nums[0]))
-            prog[-1][1].insert(1, ("onbrk", nums[-1]))
+            prog[-1][1].insert(1, ("onbrk", nums[0] if same else nums[-1]))
             want = "ParseError"
         # an IF must stay the last statement of its line
         prog = [(n, sorted(st, key=lambda s: s[0] == "if")) for n, st in prog]
